@@ -61,6 +61,14 @@ def ops_for(t):
         add('hmax', 'T h = x.maximum();', None, kind='hmax', mode='MINMAX')
         add('dot', 'T h = x.dot(y);', None, kind='dot', mode='ALG')
         add('index', 'T h = x[LANE];', None, kind='index')
+    if not fp and not cx:   # integer division: lane-wise, all three operand forms and the in-place forms
+        add('div', 'V z = x / y;', 'z = x / y;')
+        add('div_s', 'V z = x / s;', 'z = x / s;')
+        add('s_div', 'V z = s / x;', 'z = s / x;')
+        add('idiv', 'V z = x; z /= y;', 'z = x / y;')
+        add('idiv_s', 'V z = x; z /= s;', 'z = x / s;')
+    if fp:
+        add('idiv_s', 'V z = x; z /= s;', 'z = x / s;', mode='ALG')
     if fp or cx:
         add('div', 'V z = x / y;', 'z = x / y;', mode='ALG' if cx else 'EXACT')
         add('div_s', 'V z = x / s;', 'z = x / s;', mode='ALG')
@@ -184,6 +192,33 @@ def mk_mask(t, abi, which):
                    [{'kind': 'equal', 'a': 'r', 'b': 'rref', 'cells': n, 'mode': 'EXACT'}])
 
 
+CMPS = {'eq': '==', 'ne': '!=', 'lt': '<', 'gt': '>', 'le': '<=', 'ge': '>='}
+
+
+def mk_cmp(t, abi, cname, form):
+    """comparison operators: lane i of the boolean result is the scalar comparison of lane i (vector-vector, vector-scalar, scalar-vector)"""
+    n = lanes(t, abi); ct = CTYPE[t]; o = CMPS[cname]
+    e = {'vv': ('x %s y' % o, 'a[i] %s b[i]' % o), 'vs': ('x %s s' % o, 'a[i] %s s' % o), 'sv': ('s %s x' % o, 's %s a[i]' % o)}[form]
+    wit = ('extern "C" void @W@(const %s* a, const %s* b, %s s, bool* r){ using T = %s; using V = SIMDVector<T,%s>; V x(a,false), y(b,false); auto z = %s; '
+           'static_assert(std::is_same<decltype(z), SIMDVector<bool,simd_abi::fixed_size<%d>>>::value, "mask type"); z.store(r,false); }') % (ct, ct, ct, ct, abi_cxx(abi), e[0], n)
+    ref = 'extern "C" void @R@(const %s* a, const %s* b, %s s, bool* r){ for(int i=0;i<%d;i++) r[i] = %s; }' % (ct, ct, ct, n, e[1])
+    regions = [rreg('a', t, n, role='in', init='sym'), rreg('b', t, n, role='in', init='sym'), rreg('s', t, 1, role='in', init='sym'), rreg('r', 'bool', n, role='out'), rreg('rref', 'bool', n)]
+    return Witness('simd_%s_%s_cmp_%s_%s' % (t, abi, cname, form), 'simd.cmp_' + cname, {'type': t, 'abi': abi, 'op': 'cmp_%s_%s' % (cname, form), 'lanes': n}, wit, ref, regions,
+                   [{'mod': 'wit', 'fn': '@W@', 'args': ['a', 'b', {'scalar': 's'}, 'r']}, {'mod': 'ref', 'fn': '@R@', 'args': ['a', 'b', {'scalar': 's'}, 'rref']}],
+                   [{'kind': 'equal', 'a': 'r', 'b': 'rref', 'cells': n, 'mode': 'EXACT'}])
+
+
+def mk_cast(t, u, n):
+    """cast<U>() of the generic fixed-size vector: lane i = static_cast<U>(lane i)"""
+    ct = CTYPE[t]; cu = CTYPE[u]
+    wit = 'extern "C" void @W@(const %s* a, %s* r){ using V = SIMDVector<%s,simd_abi::fixed_size<%d>>; V x(a,false); auto z = x.template cast<%s>(); z.store(r,false); }' % (ct, cu, ct, n, cu)
+    ref = 'extern "C" void @R@(const %s* a, %s* r){ for(int i=0;i<%d;i++) r[i] = static_cast<%s>(a[i]); }' % (ct, cu, n, cu)
+    return Witness('simd_%s_fixed%d_cast_%s' % (t, n, u), 'simd.cast', {'type': t, 'abi': 'fixed%d' % n, 'op': 'cast_' + u, 'lanes': n}, wit, ref,
+                   [rreg('a', t, n, role='in', init='sym'), rreg('r', u, n, role='out'), rreg('rref', u, n)],
+                   [{'mod': 'wit', 'fn': '@W@', 'args': ['a', 'r']}, {'mod': 'ref', 'fn': '@R@', 'args': ['a', 'rref']}],
+                   [{'kind': 'equal', 'a': 'r', 'b': 'rref', 'cells': n, 'mode': 'EXACT'}])
+
+
 def witnesses(tier, seed, isa='avx512'):
     W = []
     for t in ('f32', 'f64', 'i32', 'i64', 'c64', 'c128'):
@@ -199,6 +234,13 @@ def witnesses(tier, seed, isa='avx512'):
                 else:
                     W.append(mk(t, abi, name, op))
             if t not in ('c64', 'c128'):
+                for cname in CMPS:
+                    for form in ('vv', 'vs', 'sv'):
+                        W.append(mk_cmp(t, abi, cname, form))
+                if abi in ('fixed4', 'fixed3'):
+                    for u in ('f32', 'f64', 'i32', 'i64'):
+                        if u != t:
+                            W.append(mk_cast(t, u, lanes(t, abi)))
                 W.append(mk_aligned(t, abi))
                 s = mk_set(t, abi)
                 if s and abi in ('sse', 'avx', 'avx512'):
